@@ -38,11 +38,12 @@ def _claim_numbers(enc, cl):
     if "vals" in cl:
         for v in cl["vals"]:
             yield Fraction(v)
+        yield from E.as_dual(cl["start"])
 
 
 def _enc_claim(enc, cl, D):
     out = {"t": cl["t"]}
-    for key in ("pi", "a", "b", "k", "undef", "part", "tag"):
+    for key in ("pi", "a", "b", "k", "undef", "part", "tag", "lag"):
         if key in cl and not (key == "k" and cl["t"] == "rec"):
             out[key] = cl[key]
     for key in ("poly", "lhs", "rhsp"):
@@ -65,11 +66,14 @@ def _enc_claim(enc, cl, D):
     if cl["t"] == "supp":
         out["v"] = enc.idx[cl["v"]]
         out["vals"] = [E.enc_s(v, D) for v in cl["vals"]]
+        out["start"] = E.enc_s(cl["start"], D)
     if cl["t"] == "equiv":
         out["va"] = [enc.idx[v] for v in cl["va"]]
         out["vb"] = [enc.idx[v] for v in cl["vb"]]
     if cl["t"] in ("cmom",) and "undef" not in out:
         out["undef"] = 0
+    if cl["t"] == "cmom" and "lag" not in out:
+        out["lag"] = 0
     if cl["t"] == "cmom" and "val" not in cl:
         out.update(E.frac_claim(0))
     return out
